@@ -87,9 +87,11 @@ type Outcome struct {
 	Goroutines int                 `json:"goroutines"` // goroutines left by the run = channel objects created
 	Tracks     map[string][]string `json:"tracks"`
 	Files      map[string][]string `json:"files"` // channel -> sorted "track/file"
-	MPDs       map[string]bool     `json:"mpds"`
-	Masters    map[string]string   `json:"masters"` // channel -> masterTrName
-	TrIDs      map[string][]string `json:"trids"`
+	// raw-segment mode: stored files that are not the bytes of the last upload answered 200 under that name
+	Content []string            `json:"content,omitempty"`
+	MPDs    map[string]bool     `json:"mpds"`
+	Masters map[string]string   `json:"masters"` // channel -> masterTrName
+	TrIDs   map[string][]string `json:"trids"`
 	// Register scenarios: number of rounds per (master, keys, trIDs) outcome
 	RegOutcomes map[string]int `json:"reg_outcomes,omitempty"`
 	Hangs       int            `json:"hangs,omitempty"` // Receiving scenarios: rounds that did not finish
@@ -401,6 +403,25 @@ func runOnce(si, round int, sc Scenario) Outcome {
 				count(put(rcv.Router, fmt.Sprintf("/upload/%s/%s/init%s", chn, tr.Name, tr.Ext), inits[tr.Name], true))
 			}
 			count(put(rcv.Router, fmt.Sprintf("/upload/%s/%s/2%s", chn, tr.Name, tr.Ext), seg2, true))
+			if sc.Raw {
+				// the restarted receiver counts its raw files from 0 again: it writes over the files of the earlier run,
+				// the first one with a longer body, the second one with a shorter body
+				last := [2][]byte{inits[tr.Name], seg2}
+				if i < half {
+					short := seg2[:len(seg2)/3]
+					count(put(rcv.Router, fmt.Sprintf("/upload/%s/%s/3%s", chn, tr.Name, tr.Ext), short, true))
+					last = [2][]byte{seg2, short}
+				}
+				for k, want := range last {
+					name := fmt.Sprintf("%s_init_%d%s", tr.Name, k, tr.Ext)
+					got, err := os.ReadFile(filepath.Join(storage, chn, tr.Name, name))
+					if err != nil || !bytes.Equal(got, want) {
+						mu.Lock()
+						out.Content = append(out.Content, fmt.Sprintf("%s/%s has %d bytes (%v), the last upload stored under that name had %d", tr.Name, name, len(got), err, len(want)))
+						mu.Unlock()
+					}
+				}
+			}
 		}
 		var rw sync.WaitGroup
 		go_ := make(chan struct{})
